@@ -46,6 +46,7 @@ class Ctx:
         self.model = model
         self.quiet = quiet
         self.obs = []
+        self._index = {}
         self.floors = {}  # rule -> (min decided instances, note)
         self.rules = {}  # rule -> description
         self.notes = []
@@ -73,6 +74,14 @@ class Ctx:
 
     def ob(self, rule, key, verdict, detail=None, where=None, node=None, witness=None):
         o = Obligation(rule, key, verdict, detail, self._loc(where, node), witness)
+        idx = self._index.get((o.rule, o.key))
+        if idx is not None:
+            # the same instance reached along several specialised paths: keep one record, the worst verdict wins
+            rank = {OK: 0, UND: 1, BAD: 2}
+            if rank[o.verdict] > rank[self.obs[idx].verdict]:
+                self.obs[idx] = o
+            return self.obs[idx]
+        self._index[(o.rule, o.key)] = len(self.obs)
         self.obs.append(o)
         return o
 
